@@ -136,6 +136,34 @@ def noserver_session(bindir, tag, quit_key):
         rd.cleanup()
 
 
+def retry_wait_session(bindir, tag, quit_key):
+    """--retry-tcp: the server goes away for good; radar waits for a new connection; quit must still work and restore
+    the terminal"""
+    srv = apps.FeedServer([{"segments": [[list(aircraft_lines(random.Random(7), True)), "short"]], "then": "close", "linger": 0.2}])
+    srv.start()
+    rd = apps.Radar(bindir, srv.port, ["--lat", str(RXF[0]), "--long", str(RXF[1]), "--retry-tcp"])
+    try:
+        rd.wait_frames(2, 6)
+        srv.done_sending.wait(10)
+        t0 = time.time()
+        while time.time() - t0 < 1.5:          # server closed and no longer listening: "Waiting for connection"
+            rd.pump(0.05)
+        rd.send(apps.KEYS[quit_key])
+        status = rd.wait_exit(5)
+        out = bytes(rd.out)
+        modes = apps.modes_at_end(rd.out)
+        return [{"ev": "session_start", "tag": tag, "rx": {"lat": 0, "lon": 0}, "scale9": 120000000},
+                {"ev": "session_end", "tag": tag, "quit_sent": 1, "alive": 1 if status is None else 0, "exit": status if status is not None else -1,
+                 "panic": 1 if b"panicked" in out else 0, "termios_before": apps.termios_summary(rd.termios_before),
+                 "termios_after": apps.termios_summary(rd.termios_after()),
+                 "modes": {"mouse": max([modes.get(m, 0) for m in (1000, 1002, 1003, 1006, 1015)]), "cursor": modes.get(25, 1),
+                           "altscreen": modes.get(1049, 0)},
+                 "panic_text": (re.search(rb"panicked at ([^\r\n]*)", out).group(1).decode("latin-1")[:120] if b"panicked" in out else "")}]
+    finally:
+        srv.stop()
+        rd.cleanup()
+
+
 KEYNAMES = ["F1", "F2", "F3", "F4", "F5", "Tab", "Enter", "Up", "Down", "Left", "Right", "+", "-", "l", "i", "h", "t", "n", "x", "Esc", "Space", "PageDown"]
 CODE2KEY = {"F(1)": "F1", "F(2)": "F2", "F(3)": "F3", "F(4)": "F4", "F(5)": "F5", "Tab": "Tab", "Up": "Up", "Down": "Down", "Left": "Left",
             "Right": "Right", "Enter": "Enter", "Char('+')": "+", "Char('-')": "-", "Char('l')": "l", "Char('t')": "t", "Char('x')": "x", "Char('q')": "q"}
@@ -245,6 +273,9 @@ def run(prop, tier, seed, rep):
     for qk in ("q", "CtrlC"):
         results.append(noserver_session(bindir, "noserver-" + qk, qk))
         jobs.append({"tag": "noserver-" + qk})
+    for qk in ("q", "CtrlC"):
+        results.append(retry_wait_session(bindir, "retrywait-" + qk, qk))
+        jobs.append({"tag": "retrywait-" + qk})
     events = [e for r in results for e in r]
     events.append({"ev": "session_start", "tag": "cli", "rx": {"lat": 0, "lon": 0}, "scale9": 0})
     for a in CLI_BAD:
